@@ -188,6 +188,9 @@ class ExprMixin:
         e = self.alloc(st, clsname)
         for i, a in enumerate(args):
             st.heap.store("$arg%d" % i, e, a)
+        if self.eng.ct.is_sub(clsname, "StopIteration"):
+            st.heap.store("value", e, args[0] if args else NONE)
+            st.heap.store("$has:value", e, z3.BoolVal(True))
         return e
 
     def new_list(self, st, items=()):
